@@ -1,6 +1,7 @@
 package main
 
 import (
+	"sort"
 	"bytes"
 	"context"
 	"fmt"
@@ -177,13 +178,39 @@ func Discharge(obls []*Oblig, dir string, timeoutS int, par int, unanimous bool)
 			r.Bytes = len(script)
 			base := fmt.Sprintf("o%04d", i)
 			r.File = filepath.Join(dir, base)
-			if len(script) > 8<<20 {
+			if len(script) > 16<<20 {
 				r.Status = "unknown"
 				r.Model = "VC too large"
 				return
 			}
-			st, sv, md, ms := solveRace(dir, base, script, timeoutS, unanimous)
-			r.Status, r.Solver, r.Model, r.Ms = st, sv, md, ms
+			first := timeoutS
+			if len(o.disj) > 1 && timeoutS > 5 {
+				first = 5
+			}
+			st, sv, md, ms := solveRace(dir, base, script, first, unanimous)
+			if (st == "unsat" || st == "sat") || len(o.disj) <= 1 {
+				r.Status, r.Solver, r.Model, r.Ms = st, sv, md, ms
+				return
+			}
+			// undecided in aggregate: decide each path separately (all must be unsat)
+			total := ms
+			solversUsed := map[string]bool{}
+			for k, dj := range o.disj {
+				sc := Script([]*Term{dj}, true, "")
+				st, sv, md, ms := solveRace(dir, fmt.Sprintf("%s_p%d", base, k), sc, timeoutS, unanimous)
+				total += ms
+				if st != "unsat" {
+					r.Status, r.Solver, r.Model, r.Ms = st, sv, md, total
+					return
+				}
+				solversUsed[sv] = true
+			}
+			var names []string
+			for n := range solversUsed {
+				names = append(names, n)
+			}
+			sort.Strings(names)
+			r.Status, r.Solver, r.Ms = "unsat", strings.Join(names, ",")+" (per path)", total
 		}(i, o, r)
 	}
 	wg.Wait()
